@@ -2,11 +2,14 @@ package props
 
 import (
 	"bytes"
+	"encoding/binary"
 	"fmt"
+	"hash/fnv"
 	"os"
 	"path/filepath"
 	"sort"
 	"strings"
+	"time"
 
 	"github.com/ipfs/go-cid"
 
@@ -21,35 +24,76 @@ type C18Node struct {
 	Size   int       `json:"s,omitempty"`
 	Target string    `json:"t,omitempty"`
 	Kids   []C18Node `json:"c,omitempty"`
+	Zero   bool      `json:"z,omitempty"`    // file of zero bytes only (every chunk is the same block)
+	Like   string    `json:"like,omitempty"` // file content generated for this name instead of Name (equal files under different names)
 }
 
 type C18Case struct {
-	Kids    []C18Node `json:"kids"` // children of the source directory "src"
-	Version int       `json:"version"`
+	Kids    []C18Node `json:"kids"`    // children of the source directory "src"
+	Version int       `json:"version"` // 0 = --version omitted (documented default: 2)
 	NoWrap  bool      `json:"nowrap,omitempty"`
-	Stdin   bool      `json:"stdin,omitempty"`
+	Stdin   bool      `json:"stdin,omitempty"`  // extract reads the archive from a pipe on stdin
 	Single  bool      `json:"single,omitempty"` // source is the single entry Kids[0] instead of the directory
 	Many    int       `json:"many,omitempty"`   // additionally N generated sibling files (sharding)
 	Multi   bool      `json:"multi,omitempty"`  // every top-level entry is passed to car create as its own source
+	// ManyLen is the length of the generated sibling names (0 = 9, "many-0000").
+	ManyLen int `json:"manylen,omitempty"`
+	// Nest puts the generated siblings into src/sub instead of src (the sharded directory is not the root/top entry).
+	Nest bool `json:"nest,omitempty"`
+	// In = "stdinfile": extract reads the archive from stdin redirected from the regular file (seekable fd 0).
+	In string `json:"in,omitempty"`
+	// Cwd: extract is run inside the output directory without an output directory argument.
+	Cwd bool `json:"cwd,omitempty"`
+	// Spell is how the source path is written: "" (src), "slash" (src/), "dot" (./src), "abs" (absolute).
+	Spell string `json:"spell,omitempty"`
 }
 
 const c18Chunk = 256 * 1024
 
-func c18Content(name string, size int) []byte {
-	b := make([]byte, size)
-	seed := byte(len(name)*7 + 3)
+// c18Timeout bounds one car invocation; it only turns a hang into a report and is far above
+// the run time of the largest case on a loaded machine (not a performance oracle).
+const c18Timeout = 10 * time.Minute
+
+// c18Content is the content of the file called name: a pattern that differs between any two
+// names and sizes (so swapped contents are visible) and between the chunks of one file.
+func c18Content(n C18Node) []byte {
+	b := make([]byte, n.Size)
+	if n.Zero {
+		return b
+	}
+	name := n.Name
+	if n.Like != "" {
+		name = n.Like
+	}
+	h := fnv.New64a()
+	h.Write([]byte(name))
+	var sz [8]byte
+	binary.LittleEndian.PutUint64(sz[:], uint64(n.Size))
+	h.Write(sz[:])
+	var seed [8]byte
+	binary.LittleEndian.PutUint64(seed[:], h.Sum64())
 	for i := range b {
-		b[i] = seed + byte(i%251) + byte(i/251)
+		b[i] = seed[i&7] + byte(i%251) + byte(i/251)
 	}
 	return b
 }
+
+func c18ManyName(i, l int) string {
+	s := fmt.Sprintf("many-%04d", i)
+	if l > len(s) {
+		s += "-" + strings.Repeat("n", l-len(s)-1)
+	}
+	return s
+}
+
+func c18ManyContent(i int) []byte { return []byte(fmt.Sprintf("%d", i)) }
 
 func c18Materialise(dir string, kids []C18Node) {
 	for _, n := range kids {
 		p := filepath.Join(dir, n.Name)
 		switch n.Kind {
 		case "f":
-			if err := os.WriteFile(p, c18Content(n.Name, n.Size), 0o644); err != nil {
+			if err := os.WriteFile(p, c18Content(n), 0o644); err != nil {
 				panic(err)
 			}
 		case "d":
@@ -65,12 +109,132 @@ func c18Materialise(dir string, kids []C18Node) {
 	}
 }
 
+// c18Expect renders the tree the model describes in the format of drv.SnapshotStrict, under prefix.
+func c18Expect(m map[string]string, prefix string, kids []C18Node) {
+	for _, n := range kids {
+		p := filepath.Join(prefix, n.Name)
+		switch n.Kind {
+		case "f":
+			m[p] = drv.FileDigest(c18Content(n))
+		case "d":
+			m[p] = "dir"
+			c18Expect(m, p, n.Kids)
+		case "l":
+			m[p] = "symlink:" + n.Target
+		}
+	}
+}
+
+func c18ExpectMany(m map[string]string, prefix string, cs C18Case) {
+	if cs.Many == 0 {
+		return
+	}
+	if cs.Nest {
+		prefix = filepath.Join(prefix, "sub")
+		m[prefix] = "dir"
+	}
+	for i := 0; i < cs.Many; i++ {
+		m[filepath.Join(prefix, c18ManyName(i, cs.ManyLen))] = drv.FileDigest(c18ManyContent(i))
+	}
+}
+
 func c18Entries(n int, kids []C18Node) int {
 	for _, k := range kids {
 		n++
 		n = c18Entries(n, k.Kids)
 	}
 	return n
+}
+
+func c18NonDirs(kids []C18Node) int {
+	n := 0
+	for _, e := range kids {
+		if e.Kind != "d" {
+			n++
+		}
+		n += c18NonDirs(e.Kids)
+	}
+	return n
+}
+
+// pbFields walks the top-level fields of a protobuf message; ok=false on malformed input.
+func pbFields(b []byte, visit func(field int, wire int, varint uint64, data []byte)) bool {
+	for len(b) > 0 {
+		tag, n := binary.Uvarint(b)
+		if n <= 0 {
+			return false
+		}
+		b = b[n:]
+		field, wire := int(tag>>3), int(tag&7)
+		switch wire {
+		case 0:
+			v, n := binary.Uvarint(b)
+			if n <= 0 {
+				return false
+			}
+			b = b[n:]
+			visit(field, wire, v, nil)
+		case 2:
+			l, n := binary.Uvarint(b)
+			if n <= 0 || uint64(len(b)-n) < l {
+				return false
+			}
+			visit(field, wire, 0, b[n:n+int(l)])
+			b = b[n+int(l):]
+		case 1:
+			if len(b) < 8 {
+				return false
+			}
+			b = b[8:]
+		case 5:
+			if len(b) < 4 {
+				return false
+			}
+			b = b[4:]
+		default:
+			return false
+		}
+	}
+	return true
+}
+
+// c18UnixFSType is the UnixFS DataType of a dag-pb block (PBNode.Data = field 1, unixfs Data.Type = field 1),
+// -1 when the block carries none. 1 = directory, 2 = file, 4 = symlink, 5 = HAMT shard.
+func c18UnixFSType(block []byte) int {
+	typ := -1
+	pbFields(block, func(field, wire int, _ uint64, data []byte) {
+		if field == 1 && wire == 2 {
+			pbFields(data, func(f, w int, v uint64, _ []byte) {
+				if f == 1 && w == 0 {
+					typ = int(v)
+				}
+			})
+		}
+	})
+	return typ
+}
+
+func c18Tag(cs C18Case) string {
+	tag := fmt.Sprintf("v%d:nowrap=%v:stdin=%v:single=%v", cs.Version, cs.NoWrap, cs.Stdin, cs.Single)
+	if cs.Multi {
+		tag += ":multi"
+	}
+	if cs.In != "" {
+		tag += ":in=" + cs.In
+	}
+	if cs.Cwd {
+		tag += ":cwd"
+	}
+	if cs.Spell != "" {
+		tag += ":spell=" + cs.Spell
+	}
+	if cs.Many > 0 {
+		tag += ":many"
+		if cs.Nest {
+			tag += "-nested"
+		}
+	}
+	return tag
 }
 
 func runC18(c any, x *kit.Ctx) {
@@ -83,30 +247,69 @@ func runC18(c any, x *kit.Ctx) {
 	}
 	defer os.RemoveAll(work)
 	c18Materialise(src, cs.Kids)
-	for i := 0; i < cs.Many; i++ {
-		os.WriteFile(filepath.Join(src, fmt.Sprintf("many-%04d", i)), []byte(fmt.Sprintf("%d", i)), 0o644)
+	if cs.Many > 0 {
+		dir := src
+		if cs.Nest {
+			dir = filepath.Join(src, "sub")
+			if err := os.Mkdir(dir, 0o755); err != nil {
+				panic(err)
+			}
+		}
+		for i := 0; i < cs.Many; i++ {
+			if err := os.WriteFile(filepath.Join(dir, c18ManyName(i, cs.ManyLen)), c18ManyContent(i), 0o644); err != nil {
+				panic(err)
+			}
+		}
 	}
-	source := "src"
+	// the source as the model describes it; what the harness materialised must be exactly that
+	srcModel := map[string]string{".": "dir"}
+	c18Expect(srcModel, "", cs.Kids)
+	c18ExpectMany(srcModel, "", cs)
+	if got, errs := drv.SnapshotStrict(src); len(errs) > 0 || len(drv.DiffSnapshots(srcModel, got)) > 0 {
+		panic(fmt.Sprintf("harness: materialised source differs from the model: %v %v", errs, clipList(drv.DiffSnapshots(srcModel, got))))
+	}
+
+	// a trailing slash is only a spelling of the same entry for a directory
+	spell := func(rel string, isDir bool) string {
+		switch cs.Spell {
+		case "slash":
+			if !isDir {
+				return rel
+			}
+			return rel + "/"
+		case "dot":
+			return "./" + rel
+		case "abs":
+			return filepath.Join(work, rel)
+		}
+		return rel
+	}
+	source := spell("src", true)
 	if cs.Single {
-		source = filepath.Join("src", cs.Kids[0].Name)
+		source = spell(filepath.Join("src", cs.Kids[0].Name), cs.Kids[0].Kind == "d")
 	}
-	args := []string{"create", "--version", fmt.Sprint(cs.Version), "-f", "out.car"}
+	args := []string{"create"}
+	if cs.Version != 0 {
+		args = append(args, "--version", fmt.Sprint(cs.Version))
+	}
+	args = append(args, "-f", "out.car")
 	if cs.NoWrap {
 		args = append(args, "--no-wrap")
 	}
 	if cs.Multi {
 		for _, k := range cs.Kids {
-			args = append(args, filepath.Join("src", k.Name))
+			args = append(args, spell(filepath.Join("src", k.Name), k.Kind == "d"))
 		}
 	} else {
 		args = append(args, source)
 	}
-	r := drv.Car(work, nil, args...)
+	tag := c18Tag(cs)
+	r, hung := drv.CarRun{Dir: work, Args: args, Timeout: c18Timeout}.Run()
 	x.Eval(1)
 	x.Transition(2)
-	tag := fmt.Sprintf("v%d:nowrap=%v:stdin=%v:single=%v", cs.Version, cs.NoWrap, cs.Stdin, cs.Single)
-	if cs.Multi {
-		tag += ":multi"
+	if hung {
+		x.Fail("c18:create-hang:"+tag, "car create did not finish within %v: %s", c18Timeout, clipS(string(r.Stderr), 600))
+		return
 	}
 	if r.Exit != 0 {
 		x.Fail("c18:create-failed:"+tag, "car create failed (exit %d): %s", r.Exit, clipS(string(r.Stderr), 600))
@@ -117,135 +320,200 @@ func runC18(c any, x *kit.Ctx) {
 		x.Fail("c18:create-no-output:"+tag, "car create wrote no archive: %v", err)
 		return
 	}
+	// packing must leave the source as it was
+	checkSource := func(when string) {
+		got, errs := drv.SnapshotStrict(src)
+		if d := drv.DiffSnapshots(srcModel, got); len(d) > 0 || len(errs) > 0 {
+			x.Fail("c18:source-mutated:"+tag, "the source tree changed during %s: %v %v", when, clipList(d), clipList(errs))
+		}
+	}
+	checkSource("car create")
 	// the archive: one root, equal to `car root`, and a stored block
 	fl, err := refcar.DecodeFile(archive, false)
 	if err != nil {
 		x.Fail("c18:archive-malformed:"+tag, "created archive is not well-formed: %v", err)
 		return
 	}
-	if fl.Version != cs.Version {
-		x.Fail("c18:archive-version:"+tag, "created archive has version %d", fl.Version)
+	wantVersion := cs.Version
+	if wantVersion == 0 {
+		wantVersion = 2 // `car create --help`: --version value ... (default: 2)
+	}
+	if fl.Version != wantVersion {
+		x.Fail("c18:archive-version:"+tag, "created archive has version %d, want %d", fl.Version, wantVersion)
 	}
 	if len(fl.Payload.Header.Roots) != 1 {
 		x.Fail("c18:roots:"+tag, "created archive has %d roots", len(fl.Payload.Header.Roots))
 		return
 	}
 	root := fl.Payload.Header.Roots[0]
-	rr := drv.Car(work, nil, "root", "out.car")
+	rr, hung := drv.CarRun{Dir: work, Args: []string{"root", "out.car"}, Timeout: c18Timeout}.Run()
 	rc, cerr := cid.Cast(root)
-	if rr.Exit != 0 || cerr != nil || strings.TrimSpace(string(rr.Stdout)) != rc.String() {
+	if hung || rr.Exit != 0 || cerr != nil || strings.TrimSpace(string(rr.Stdout)) != rc.String() {
 		x.Fail("c18:car-root:"+tag, "car root prints %q (exit %d), header root is %v", strings.TrimSpace(string(rr.Stdout)), rr.Exit, rc)
 	}
+	if cerr != nil {
+		return
+	}
 	stored := false
+	sharded := false
 	for _, s := range fl.Payload.Sections {
 		if bytes.Equal(s.Cid, root) {
 			stored = true
+		}
+		if sc, err := cid.Cast(s.Cid); err == nil && sc.Prefix().Codec == cid.DagProtobuf && c18UnixFSType(s.Data) == 5 {
+			sharded = true
 		}
 	}
 	if !stored {
 		x.Fail("c18:root-not-stored:"+tag, "the archive's root %v is not among its blocks (placeholder root left in place?)", rc)
 	}
+	if sharded {
+		x.Outcome("sharded")
+		x.Count("sharded_archives", 1)
+		if cs.Nest {
+			x.Count("sharded_nested_archives", 1)
+		}
+	} else if nl := max(cs.ManyLen, 9); cs.Many*(nl+36) > 262144 {
+		// the case was sized to cross the UnixFS builder's sharding threshold
+		x.NotExhaustive("a many-sibling case produced no HAMT-sharded directory (sharding threshold of the UnixFS builder not reached)")
+	}
 	// extract
 	out := filepath.Join(work, "out")
 	os.MkdirAll(out, 0o755) // car extract requires an existing output directory
-	var er drv.RunResult
-	if cs.Stdin {
-		er = drv.Car(work, archive, "extract", "out")
-	} else {
-		er = drv.Car(work, nil, "extract", "-f", "out.car", "out")
+	ex := drv.CarRun{Dir: work, Timeout: c18Timeout, Args: []string{"extract"}}
+	carPath := "out.car"
+	if cs.Cwd {
+		ex.Dir = out
+		carPath = filepath.Join("..", "out.car")
 	}
+	switch {
+	case cs.In == "stdinfile":
+		ex.StdinFile = filepath.Join(work, "out.car")
+	case cs.Stdin:
+		ex.Stdin = archive
+	default:
+		ex.Args = append(ex.Args, "-f", carPath)
+	}
+	if !cs.Cwd {
+		ex.Args = append(ex.Args, "out")
+	}
+	er, hung := ex.Run()
 	x.Eval(1)
-	total := c18Entries(0, cs.Kids) + cs.Many
-	if cs.Single {
-		total = 1 + c18Entries(0, cs.Kids[0].Kids)
-	}
-	if cs.Single && cs.NoWrap && cs.Kids[0].Kind != "d" {
-		x.Outcome("nowrap-non-directory-root")
+	if hung {
+		x.Fail("c18:extract-hang:"+tag, "car extract did not finish within %v: %s", c18Timeout, clipS(string(er.Stderr), 600))
 		return
 	}
-	if er.Exit != 0 && !(total == 0 || (cs.Single && cs.Kids[0].Kind == "d" && len(cs.Kids[0].Kids) == 0)) {
-		// "no files extracted" (exit 1) is legitimate only for a tree without files
-		if !(strings.Contains(string(er.Stderr), "no files extracted") && c18CountFiles(cs) == 0) {
-			x.Fail("c18:extract-failed:"+tag, "car extract failed (exit %d): %s", er.Exit, clipS(string(er.Stderr), 600))
-			return
+	checkSource("car extract")
+	// nothing but the archive and the output directory may appear next to the source
+	if ents, err := os.ReadDir(work); err == nil {
+		var stray []string
+		for _, e := range ents {
+			if n := e.Name(); n != "src" && n != "out" && n != "out.car" {
+				stray = append(stray, n)
+			}
+		}
+		if len(stray) > 0 {
+			x.Fail("c18:stray-output:"+tag, "create/extract left unexpected entries next to the source: %q", clipList(stray))
 		}
 	}
-	// expected location of the tree under out (documented mapping)
-	want := map[string]string{}
-	var gotRoot, wantRoot string
+	got, gerrs := drv.SnapshotStrict(out)
+	if len(gerrs) > 0 {
+		x.Fail("c18:tree-unreadable:"+tag, "extracted tree cannot be read back: %v", clipList(gerrs))
+	}
+
+	// entries the extraction has to reproduce, and the number of files/symlinks among them
+	entries := cs.Kids
 	switch {
-	case cs.Single && cs.Kids[0].Kind != "d":
-		// a single file or symlink
-		if cs.NoWrap {
-			// a bare file or symlink root has no name to extract to (car extract skips raw
-			// roots on purpose): outside the property's domain of directory trees
+	case cs.Single:
+		entries = cs.Kids[:1]
+	}
+	total := c18Entries(0, entries) + cs.Many
+	files := c18NonDirs(entries) + cs.Many
+	if cs.Nest && cs.Many > 0 {
+		total++
+	}
+
+	if cs.Single && cs.NoWrap && cs.Kids[0].Kind != "d" {
+		// A bare file or symlink packed with --no-wrap has no name to extract to. A single-block file
+		// is a raw root, which car extract skips on purpose, and a symlink needs a name: both are
+		// outside the property's domain of directory trees. A file of several chunks is written
+		// under a name of the tool's choosing: its content (only) must be the source's.
+		if cs.Kids[0].Kind != "f" || rc.Prefix().Codec == cid.Raw {
 			x.Outcome("nowrap-non-directory-root")
 			return
-		} else {
-			wantRoot = filepath.Join(src, cs.Kids[0].Name)
-			gotRoot = filepath.Join(out, cs.Kids[0].Name)
 		}
-		a := drv.Snapshot(wantRoot)
-		b := drv.Snapshot(gotRoot)
-		if d := drv.DiffSnapshots(a, b); len(d) > 0 {
-			x.Fail("c18:tree-differs:"+tag, "extracted entry differs from the source: %v", clipList(d))
+		if er.Exit != 0 {
+			x.Fail("c18:extract-failed:"+tag, "car extract of a bare multi-chunk file failed (exit %d): %s", er.Exit, clipS(string(er.Stderr), 600))
+			return
+		}
+		want := drv.FileDigest(c18Content(cs.Kids[0]))
+		var names []string
+		for k := range got {
+			if k != "." {
+				names = append(names, k)
+			}
+		}
+		if len(names) != 1 || got[names[0]] != want {
+			x.Fail("c18:bare-file-differs:"+tag, "a bare file packed with --no-wrap extracts to %v, want exactly one file with %s", clipMap(got), want)
 		}
 		x.State(fmt.Sprintf("%+v", cs))
+		x.Outcome("nowrap-bare-file-content")
 		return
-	case cs.Single:
-		wantRoot = filepath.Join(src, cs.Kids[0].Name)
-		if cs.NoWrap {
-			gotRoot = out
-		} else {
-			gotRoot = filepath.Join(out, cs.Kids[0].Name)
+	}
+	if er.Exit != 0 {
+		// "no files extracted" (exit 1) is legitimate only for a tree without files and symlinks
+		if !(er.Exit == 1 && strings.Contains(string(er.Stderr), "no files extracted") && files == 0) {
+			x.Fail("c18:extract-failed:"+tag, "car extract failed (exit %d) on a tree with %d files/symlinks: %s", er.Exit, files, clipS(string(er.Stderr), 600))
+			return
 		}
+		x.Outcome("no-files-extracted")
+	}
+	// expected content of the whole output directory (documented mapping)
+	want := map[string]string{".": "dir"}
+	switch {
+	case cs.Single && cs.NoWrap:
+		// a directory packed without wrapping: its entries directly under out
+		c18Expect(want, "", cs.Kids[0].Kids)
+	case cs.Single:
+		// wrapped: under its base name
+		c18Expect(want, "", cs.Kids[:1])
 	case cs.Multi:
 		// several sources are wrapped in one directory: each appears under its base name
-		wantRoot = src
-		gotRoot = out
+		c18Expect(want, "", cs.Kids)
+	case cs.NoWrap:
+		c18Expect(want, "", cs.Kids)
+		c18ExpectMany(want, "", cs)
 	default:
-		wantRoot = src
-		if cs.NoWrap {
-			gotRoot = out
-		} else {
-			gotRoot = filepath.Join(out, "src")
-		}
+		want["src"] = "dir"
+		c18Expect(want, "src", cs.Kids)
+		c18ExpectMany(want, "src", cs)
 	}
-	_ = want
-	a := drv.Snapshot(wantRoot)
-	b := drv.Snapshot(gotRoot)
-	if len(b) == 0 && len(a) <= 1 {
-		// an empty directory extracts to an empty (possibly absent) directory
-		b = a
-	}
-	if d := drv.DiffSnapshots(a, b); len(d) > 0 {
+	if d := drv.DiffSnapshots(want, got); len(d) > 0 {
 		x.Fail("c18:tree-differs:"+tag, "extracted tree differs from the source: %v", clipList(d))
 	}
 	x.State(fmt.Sprintf("%+v", cs))
-	x.Outcome(fmt.Sprintf("entries=%d", total))
+	if total > 50 {
+		x.Outcome("entries>50")
+	} else {
+		x.Outcome(fmt.Sprintf("entries=%d", total))
+	}
 	if total >= 2 {
 		x.Nontrivial(fmt.Sprintf("%+v", cs))
 	}
 }
 
-func c18CountFiles(cs C18Case) int {
-	var cnt func(k []C18Node) int
-	cnt = func(k []C18Node) int {
-		n := 0
-		for _, e := range k {
-			if e.Kind != "d" {
-				n++
-			}
-			n += cnt(e.Kids)
-		}
-		return n
+func clipMap(m map[string]string) []string {
+	var l []string
+	for k, v := range m {
+		l = append(l, clipS(k, 40)+"="+v)
 	}
-	return cnt(cs.Kids) + cs.Many
+	sort.Strings(l)
+	return clipList(l)
 }
 
 func clipList(d []string) []string {
 	if len(d) > 8 {
-		return append(d[:8], fmt.Sprintf("... %d more", len(d)-8))
+		return append(d[:8:8], fmt.Sprintf("... %d more", len(d)-8))
 	}
 	return d
 }
@@ -285,19 +553,50 @@ func c18Trees(names []string, kinds []C18Node, budget int, emit func([]C18Node))
 	rec(0, budget, nil)
 }
 
+// c18OddNames: hidden, maximal-length (255 bytes, ASCII and multibyte), backslash, leading dash, newline.
+func c18OddNames() []string {
+	return []string{
+		".h",
+		strings.Repeat("x", 255),
+		strings.Repeat("ü", 127) + "y",
+		`a\b`,
+		"-x",
+		"n\nl",
+	}
+}
+
+// c18ShardMany/c18ShardLong: sibling counts that push the UnixFS builder's directory size estimate
+// (sum of name length + 36-byte CID) over its 262144 sharding threshold.
+const (
+	c18ShardMany    = 6000 // 6000*(9+36) = 270000
+	c18ShardLong    = 1000 // 1000*(230+36) = 266000
+	c18ShardLongLen = 230
+)
+
 func genC18(tier string, emit func(any)) {
+	thorough := tier == "thorough"
 	names := []string{"a", "b", "ü", "a b"}
 	kinds := []C18Node{{Kind: "f", Size: 0}, {Kind: "f", Size: 1}, {Kind: "d"}, {Kind: "l", Target: "a"}, {Kind: "l", Target: "../x/y"}, {Kind: "l", Target: "./b/../a/"}}
 	maxN := 2
-	if tier == "thorough" {
+	if thorough {
 		maxN = 3
 	}
-	modes := func(kids []C18Node, single bool) {
+	modesOf := func(base C18Case) {
 		for _, v := range []int{1, 2} {
 			for _, nw := range []bool{false, true} {
 				for _, stdin := range []bool{false, true} {
-					emit(C18Case{Kids: kids, Version: v, NoWrap: nw, Stdin: stdin, Single: single})
+					cs := base
+					cs.Version, cs.NoWrap, cs.Stdin = v, nw, stdin
+					emit(cs)
 				}
+			}
+		}
+	}
+	modes := func(kids []C18Node, single bool) { modesOf(C18Case{Kids: kids, Single: single}) }
+	multi := func(kids []C18Node) {
+		for _, v := range []int{1, 2} {
+			for _, stdin := range []bool{false, true} {
+				emit(C18Case{Kids: kids, Version: v, Stdin: stdin, Multi: true})
 			}
 		}
 	}
@@ -308,30 +607,142 @@ func genC18(tier string, emit func(any)) {
 				modes(kids, true)
 			}
 			if len(kids) >= 2 {
-				for _, v := range []int{1, 2} {
-					for _, stdin := range []bool{false, true} {
-						emit(C18Case{Kids: kids, Version: v, Stdin: stdin, Multi: true})
-					}
-				}
+				multi(kids)
 			}
 		})
 	}
-	// file sizes around the chunk size
-	for _, sz := range []int{c18Chunk - 1, c18Chunk, c18Chunk + 1, 3*c18Chunk + 5} {
+	// file sizes: around the chunk size, an exactly full last chunk, and data sizes that put the
+	// section length (36-byte CID + data) on both sides of the 1->2 and 2->3 byte varint widths
+	for _, sz := range []int{c18Chunk - 1, c18Chunk, c18Chunk + 1, 3*c18Chunk + 5, 2 * c18Chunk, 91, 92, 16347, 16348} {
 		kids := []C18Node{{Name: "big", Kind: "f", Size: sz}, {Name: "e", Kind: "f", Size: 0}}
 		modes(kids, false)
 		modes(kids[:1], true)
 	}
+	// an all-zero file of three chunks: the same leaf block is linked three times by one file
+	{
+		kids := []C18Node{{Name: "zero", Kind: "f", Size: 3 * c18Chunk, Zero: true}, {Name: "e", Kind: "f", Size: 0}}
+		modes(kids, false)
+		modes(kids[:1], true)
+	}
+	// equal multi-chunk and equal 1-byte files under different names and in different directories
+	modes([]C18Node{
+		{Name: "p", Kind: "f", Size: c18Chunk + 1},
+		{Name: "q", Kind: "f", Size: c18Chunk + 1, Like: "p"},
+		{Name: "r", Kind: "d", Kids: []C18Node{{Name: "p", Kind: "f", Size: c18Chunk + 1, Like: "p"}, {Name: "s", Kind: "f", Size: 1}, {Name: "t", Kind: "f", Size: 1, Like: "s"}}},
+	}, false)
 	// nesting chain to depth 6
 	chain := []C18Node{{Name: "leaf", Kind: "f", Size: 3}}
 	for d := 0; d < 6; d++ {
 		chain = []C18Node{{Name: fmt.Sprintf("d%d", d), Kind: "d", Kids: chain}, {Name: "s", Kind: "l", Target: "d0"}}
 	}
 	modes(chain, false)
-	if tier == "thorough" {
-		// a directory large enough to be sharded (HAMT)
-		emit(C18Case{Kids: []C18Node{{Name: "a", Kind: "f", Size: 1}}, Version: 2, Many: 1200})
-		emit(C18Case{Kids: []C18Node{{Name: "a", Kind: "f", Size: 1}}, Version: 1, NoWrap: true, Stdin: true, Many: 1200})
+
+	// odd names, each at depth 1 (file), 2 (directory) and 3 (symlink to itself by name), as the
+	// directory source, as the single source (file; directory) and as separate sources
+	for _, o := range c18OddNames() {
+		kids := []C18Node{
+			{Name: o, Kind: "f", Size: 1},
+			{Name: "m", Kind: "d", Kids: []C18Node{{Name: o, Kind: "d", Kids: []C18Node{{Name: o, Kind: "l", Target: o}, {Name: "f", Kind: "f", Size: 2}}}}},
+		}
+		modes(kids, false)
+		modes(kids[:1], true)
+		modes([]C18Node{{Name: o, Kind: "d", Kids: []C18Node{{Name: o, Kind: "f", Size: 2}}}}, true)
+		multi(kids)
+	}
+	// all odd names side by side (sort order of the directory's links), with the plain ones
+	{
+		var kids []C18Node
+		for i, o := range append(c18OddNames(), "a", "ü") {
+			kids = append(kids, C18Node{Name: o, Kind: "f", Size: i})
+		}
+		modes(kids, false)
+		multi(kids)
+	}
+
+	// reduced matrix for the remaining CLI dimensions, over five representative trees
+	// (empty source, one empty directory, a directory source, a mixed tree, the nesting chain):
+	//   stdin redirected from the regular file x version x wrap
+	//   extraction into the current directory x version x wrap x {file, pipe, redirected file}
+	//   --version omitted x wrap x {file, pipe}
+	//   source spelled src/, ./src, absolute x version x wrap
+	mixed := []C18Node{
+		{Name: "d", Kind: "d", Kids: []C18Node{{Name: "x", Kind: "f", Size: 1}, {Name: "l", Kind: "l", Target: "../m"}, {Name: "ed", Kind: "d"}}},
+		{Name: "dang", Kind: "l", Target: "no/where"},
+		{Name: "e", Kind: "f", Size: 0},
+		{Name: "m", Kind: "f", Size: c18Chunk + 7},
+	}
+	type rep struct {
+		kids   []C18Node
+		single bool
+	}
+	for _, t := range []rep{{nil, false}, {[]C18Node{{Name: "ed", Kind: "d"}}, true}, {mixed[:1], true}, {mixed, false}, {chain, false}} {
+		base := C18Case{Kids: t.kids, Single: t.single}
+		for _, v := range []int{1, 2} {
+			for _, nw := range []bool{false, true} {
+				cs := base
+				cs.Version, cs.NoWrap = v, nw
+				cs.In = "stdinfile"
+				emit(cs)
+				for _, in := range []string{"file", "pipe", "stdinfile"} {
+					cw := base
+					cw.Version, cw.NoWrap, cw.Cwd = v, nw, true
+					switch in {
+					case "pipe":
+						cw.Stdin = true
+					case "stdinfile":
+						cw.In = in
+					}
+					emit(cw)
+				}
+				for _, sp := range []string{"slash", "dot", "abs"} {
+					cp := base
+					cp.Version, cp.NoWrap, cp.Spell = v, nw, sp
+					emit(cp)
+				}
+			}
+		}
+		for _, nw := range []bool{false, true} {
+			for _, stdin := range []bool{false, true} {
+				cd := base
+				cd.NoWrap, cd.Stdin = nw, stdin // Version 0: flag omitted
+				emit(cd)
+			}
+		}
+	}
+	// separate sources with spelled paths
+	for _, sp := range []string{"slash", "dot", "abs"} {
+		emit(C18Case{Kids: mixed, Version: 2, Multi: true, Spell: sp})
+		emit(C18Case{Kids: mixed, Version: 1, Multi: true, Spell: sp, Stdin: true})
+	}
+
+	// directories large enough to be sharded (HAMT); the archive is checked to contain a shard node
+	one := []C18Node{{Name: "a", Kind: "f", Size: 1}}
+	if thorough {
+		// many short names / fewer long names, as the source directory itself and nested one level
+		// below it, under all 8 modes (no-wrap: the HAMT node is the root; wrap: the top entry; nested: an inner directory)
+		for _, nest := range []bool{false, true} {
+			modesOf(C18Case{Kids: one, Many: c18ShardMany, Nest: nest})
+			modesOf(C18Case{Kids: one, Many: c18ShardLong, ManyLen: c18ShardLongLen, Nest: nest})
+		}
+		emit(C18Case{Kids: one, Version: 2, Many: c18ShardMany, In: "stdinfile", Cwd: true})
+		emit(C18Case{Kids: one, Version: 1, NoWrap: true, Many: c18ShardMany, In: "stdinfile"})
+	} else {
+		// reduced: the long-name variant (1000 files) under 4 of the 16 mode x nesting combinations
+		emit(C18Case{Kids: one, Version: 2, Many: c18ShardLong, ManyLen: c18ShardLongLen})
+		emit(C18Case{Kids: one, Version: 1, NoWrap: true, Stdin: true, Many: c18ShardLong, ManyLen: c18ShardLongLen})
+		emit(C18Case{Kids: one, Version: 2, NoWrap: true, Stdin: true, Many: c18ShardLong, ManyLen: c18ShardLongLen, Nest: true})
+		emit(C18Case{Kids: one, Version: 1, Many: c18ShardLong, ManyLen: c18ShardLongLen, Nest: true})
+	}
+	if thorough {
+		// the former below-threshold sibling count stays (a wide unsharded directory)
+		emit(C18Case{Kids: one, Version: 2, Many: 1200})
+		emit(C18Case{Kids: one, Version: 1, NoWrap: true, Stdin: true, Many: 1200})
+		// a file of 176 chunks: more links than fit one interior node (174), i.e. a file DAG of depth 3
+		huge := []C18Node{{Name: "huge", Kind: "f", Size: 175*c18Chunk + 1}}
+		emit(C18Case{Kids: huge, Version: 1, Stdin: true})
+		emit(C18Case{Kids: huge, Version: 2})
+		emit(C18Case{Kids: huge, Version: 2, NoWrap: true, Single: true})
+		emit(C18Case{Kids: huge, Version: 1, NoWrap: true, Single: true, Stdin: true})
 		// 4 entries at the top level only (wider)
 		c18Trees(names, kinds[:4], 4, func(kids []C18Node) {
 			if len(kids) == 4 {
@@ -340,7 +751,6 @@ func genC18(tier string, emit func(any)) {
 			}
 		})
 	}
-	_ = sort.Strings
 }
 
 func init() {
@@ -350,14 +760,30 @@ func init() {
 		Run:    runC18,
 		Setup:  func(string) error { return drv.BuildCar() },
 		Decode: kit.DecodeAs[C18Case],
-		Rule: "every directory tree with up to N entries over names {a, b, ü, 'a b'} x kinds {empty file, 1-byte file, directory, symlink to a sibling, dangling symlink, symlink with a non-canonical target (./b/../a/)}, plus files of chunk-1/chunk/chunk+1/3*chunk+5 bytes, a nesting chain of depth 6 (thorough: a 1200-entry sharded directory, all 4-wide top levels) " +
-			"x --version {1,2} x --no-wrap x extraction from file / stdin x source {directory, single entry, several entries as separate sources}, packed and extracted by the REAL car binary; oracle: tree equality (names, contents, link targets) under the documented mapping, exactly one root equal to `car root` and stored; non-trivial = tree with >= 2 entries",
+		Rule: "every directory tree with up to N entries over names {a, b, ü, 'a b'} x kinds {empty file, 1-byte file, directory, symlink to a sibling, dangling symlink, symlink with a non-canonical target (./b/../a/)} " +
+			"x --version {1,2} x --no-wrap x extraction from file / stdin pipe x source {directory, single entry, several entries as separate sources}; " +
+			"plus, each under all 8 modes (and as single source where it is one entry): files of 91/92/16347/16348 bytes (section length varint widths), chunk-1/chunk/chunk+1/2*chunk/3*chunk+5 bytes, an all-zero 3-chunk file, equal files under different names, a nesting chain of depth 6, " +
+			"odd names {.h, 255-byte ASCII, 255-byte multibyte, a\\b, -x, n<newline>l} at depth 1-3 as file/directory/symlink (also as single and separate sources) and all side by side; " +
+			"reduced matrix over 5 representative trees (empty source, single empty directory, single directory, mixed tree, chain): stdin redirected from a regular file, extraction into the cwd without an output argument x {file, pipe, redirected file}, --version omitted, source spelled src/ ./src absolute (also for separate sources); " +
+			"HAMT-sharded directories (witnessed by a shard node in the archive): quick 1000 siblings with 230-byte names under 4 mode/nesting combinations; thorough 6000 short-named and 1000 long-named siblings x all 8 modes x {source directory, nested directory}, a 1200-entry unsharded directory, a 176-chunk file (file DAG of depth 3, also as bare --no-wrap file), all 4-wide top levels; " +
+			"packed and extracted by the REAL car binary (each invocation under a 10 min hang guard); oracle: the whole output directory equals the tree the model describes (names, contents, link targets, empty directories; nothing else in it) under the documented mapping, extract exits 0 or 1 with 'no files extracted' only for a tree without files/symlinks, " +
+			"a bare multi-chunk file packed --no-wrap extracts to exactly one file with the source's content, the source is unchanged and nothing else appears next to it, archive well-formed with the requested version and exactly one root equal to `car root` and stored; non-trivial = tree with >= 2 entries",
 		Bound: func(tier string) map[string]any {
+			b := map[string]any{"entries": 2, "names": 4, "kinds": 6, "odd_names": 6, "file_sizes": 12, "max_file_bytes": 3*c18Chunk + 5, "shard_siblings": c18ShardLong, "shard_modes": 4, "cli_variant_trees": 5}
 			if tier == "thorough" {
-				return map[string]any{"entries": 3, "names": 4, "kinds": 6}
+				b["entries"] = 3
+				b["max_file_bytes"] = 175*c18Chunk + 1
+				b["shard_siblings"] = c18ShardMany
+				b["shard_modes"] = 32
 			}
-			return map[string]any{"entries": 2, "names": 4, "kinds": 6}
+			return b
 		},
-		Assumptions: []string{"permissions, ownership and timestamps are not compared (the property states names, contents and link targets)", "a bare symlink packed with --no-wrap has no name to extract to and is not compared"},
+		Assumptions: []string{
+			"permissions, ownership and timestamps are not compared (the property states names, contents and link targets)",
+			"a bare symlink or single-block file (raw root) packed with --no-wrap has no name to extract to and is not compared; a bare multi-chunk file is compared by content only (the name car extract gives it is not asserted)",
+			"the output directory exists before car extract runs and the archive path does not exist before car create runs",
+			"source paths are spelled so that their base name is the entry's name (src, src/, ./src, absolute); '.', '..' and non-UTF-8 names are not enumerated",
+			"the number in car extract's 'extracted N file(s)' message is not asserted (not part of the property statement)",
+		},
 	})
 }
